@@ -13,8 +13,26 @@ func ParseQuery(query string, separator byte) map[string][]string {
 	return doParseQuery(query, separator, true)
 }
 
+// ParseQueryPairs parses the URL-encoded query string like ParseQuery and returns the
+// (name, value) pairs in the order they appear in the query, so that callers can feed them to a
+// transaction deterministically (the iteration order of the map ParseQuery returns is random).
+func ParseQueryPairs(query string, separator byte) [][2]string {
+	var pairs [][2]string
+	parseQueryFunc(query, separator, true, func(key, value string) {
+		pairs = append(pairs, [2]string{key, value})
+	})
+	return pairs
+}
+
 func doParseQuery(query string, separator byte, urlUnescape bool) map[string][]string {
 	m := make(map[string][]string)
+	parseQueryFunc(query, separator, urlUnescape, func(key, value string) {
+		m[key] = append(m[key], value)
+	})
+	return m
+}
+
+func parseQueryFunc(query string, separator byte, urlUnescape bool, add func(key, value string)) {
 	for query != "" {
 		key := query
 		if i := strings.IndexByte(key, separator); i >= 0 {
@@ -33,9 +51,8 @@ func doParseQuery(query string, separator byte, urlUnescape bool) map[string][]s
 			key = queryUnescape(key)
 			value = queryUnescape(value)
 		}
-		m[key] = append(m[key], value)
+		add(key, value)
 	}
-	return m
 }
 
 // queryUnescape is a non-strict version of net/url.QueryUnescape.
